@@ -1,6 +1,6 @@
 # Per-property claims; exec'd by gen_manifest.py (claim(id, technique, text, note, design_ref)).
 PENDING = "check not built yet in this framework (DESIGN.md §8 build order); no verdict is claimed until its rule set runs clean both ways"
-for _p in ["C01","C02","C03","C04","C05","C06","C07","C08","C11","C14","C15","C16","C18","C19","C20"]:
+for _p in ["C01","C02","C03","C04","C05","C06","C07","C08","C11","C14","C16","C18","C19","C20"]:
     NOT_APPLICABLE[_p] = PENDING
 
 claim("C10",
@@ -32,3 +32,9 @@ claim("C17",
   "Shows for every input at once that (a) nothing reachable from a RouterAddress method can resolve a name: the only package-net resolver call is ResolveIPAddr(\"\", ip.String()) of a non-nil ParseIP result; (b) Host, HasValidHost and the host-derived IP version all gate on net.ParseIP: assuming it returns nil every path fails/false/empty, assuming non-nil success is possible and the value is that ResolveIPAddr result, IPv4/IPv6 follows To4; (c) Port and HasValidPort accept exactly Atoi values in [1,65535] and Port returns Itoa of that value; (d) option lookup matches whole keys with ==; (e) StaticKey/IV accept exactly their array length. The separately written predicates are thereby shown to share gate and region for all strings, which examples cannot.",
   "Trusted: net.ParseIP accepts exactly IP literals; strconv.Atoi/Itoa; VTA call graph. Exported accessor names are anchors.",
   "DESIGN.md §5 C17")
+
+claim("C15",
+  "type-derived interval analysis in arbitrary precision over every integer operation of the time functions + unit (s/ms/µs/ns) analysis to the time.* / wire sinks + guard-region extraction for NewLease2 + structural checks of IsExpired and the extremum accumulators",
+  "For all representable field values at once: no +,-,*,<< or conversion in any function that takes or yields a time.Time/data.Date can wrap or truncate (ranges derived from the wire field types, not from samples — this is exactly where 2^31, 2^32-1 and sums crossing 2^32 live); every value reaching time.Unix/UnixMilli/Add/PutUint32/PutUint64 carries the unit the sink expects; NewLease2 rejects exactly times outside [0,2^32-1] and its narrowing is only reached with fitting values; expiry = published + expires from the structure's own fields; each IsExpired is now.After(own expiry); Newest/OldestExpiration keep only Date() of the receiver's leases under After/Before. Does not evaluate dates (day-past/day-future outcomes) or prove that the extremum bounds all others beyond the comparator direction.",
+  "Trusted: package time; go/ssa. Assumes 64-bit int and, from the property text, 8-byte millisecond dates below 2^63 (same-width reinterpretations admitted).",
+  "DESIGN.md §5 C15")
